@@ -361,6 +361,26 @@ func CheckStress(p Plan) ([]evid.Violation, int) {
 	if st := doProbe(mux, 0, "/fx/svca", ""); st != 200 {
 		report("after the plan: pre-registered /fx/svca answers %d", st)
 	}
+	// bindings that share route-tree nodes with other services' bindings: removing a neighbour
+	// must not take them away (and must take away exactly its own)
+	ownedSvc := func(svc string) bool {
+		for b, on := range connected {
+			if on {
+				for _, s := range fixture.Serves[b] {
+					if s == svc {
+						return true
+					}
+				}
+			}
+		}
+		return false
+	}
+	for svc, path := range fixture.TreeProbe {
+		owned := ownedSvc(svc) || (svc == "SvcD" && ownedSvc("SvcC")) // "/fxt/lit" falls back to SvcC's variable binding
+		if st := doProbe(mux, 0, path, ""); owned && st != 200 || !owned && st == 200 {
+			report("after the plan: %s (%s.Tree) answers %d although the connection operations %v (pre %v) leave it served=%v", path, svc, st, p.ConnOps, p.Pre, owned)
+		}
+	}
 	if len(bad) > 0 {
 		return []evid.Violation{evid.V("stress", "stress:"+strings.SplitN(bad[0], " ", 2)[0], "%s", strings.Join(bad, "\n  "))}, int(overlaps.Load())
 	}
